@@ -75,15 +75,78 @@ def cli_cases(ctx):
     return viol, samples, runs
 
 
+def resumed_limit_cases(ctx):
+    """--limit on a resumed session: a real session is quit after some guesses (its .sav then carries the counters of the
+    first session), then resumed with limit N: exactly the first N lines of the unlimited resumed run"""
+    import shutil
+    import sched_session as ss
+    from props import C12, C15
+    rng = ctx.rng
+    viol, runs = [], 0
+    root = common.scratch_dir('rules')
+    sdir = common.scratch_dir('sess')
+    for i in range(ctx.scale(4, 30)):
+        spec = C12.small_ruleset(rng, rich=i % 2 == 1)
+        d = common.write_ruleset(os.path.join(root, f"c09s_{i % 5}"), spec)
+        pcfg = common.load_grammar(d)
+        units = ss.units_of(pcfg)
+        if not C12.distinct_probs(units) or len(units) < 3:
+            continue
+        ui = rng.randrange(1, len(units) - 1)
+        while not units[ui][2] and ui < len(units) - 2:
+            ui += 1
+        if not units[ui][2]:
+            continue
+        j = rng.randrange(len(units[ui][2]))
+        sf = os.path.join(sdir, f"c09s_{i}.sav")
+        for ext in ('.sav', '.omn'):
+            if os.path.exists(sf[:-4] + ext):
+                os.remove(sf[:-4] + ext)
+        r1 = ss.run_session(pcfg, sf, C12.new_cfg(), False, C15.quit_schedule(units, ui, j), [('line', 'q', False)])
+        if r1['state'] != 'exited' or not r1['out']:
+            continue
+        keep = {}
+        for ext in ('.sav', '.omn'):
+            if os.path.exists(sf[:-4] + ext):
+                keep[ext] = open(sf[:-4] + ext, 'rb').read()
+
+        def restore_files():
+            for ext in ('.sav', '.omn'):
+                pth = sf[:-4] + ext
+                if ext in keep:
+                    open(pth, 'wb').write(keep[ext])
+                elif os.path.exists(pth):
+                    os.remove(pth)
+        big = 'm' * (sum(len(u[2]) + 1 for u in units) + 10)
+        restore_files()
+        ref = ss.run_session(pcfg, sf, C15.load_cfg(sf), True, big, [])['out']
+        runs += 1
+        g = len(r1['out'])
+        for nlim in sorted({1, 2, max(1, g - 1), g, g + 1, len(ref), len(ref) + 3, rng.randint(1, max(1, len(ref)))}):
+            restore_files()
+            got = ss.run_session(pcfg, sf, C15.load_cfg(sf), True, big, [], limit=nlim)['out']
+            runs += 1
+            if got != ref[:nlim]:
+                viol.append({'property': 'C09', 'kind': 'limit-not-prefix-after-load', 'limit': nlim, 'lines': len(got), 'want': min(nlim, len(ref)),
+                             'first_session_guesses': g, 'witness': {'spec': spec, 'unit': ui, 'guess': j, 'limit': nlim}})
+                break
+    return viol, runs
+
+
 def run(ctx):
     r = C04.run(ctx, 'C09')
+    v2, runs2 = resumed_limit_cases(ctx)
+    r['violations'] += v2
+    r['evaluations'] += runs2
+    r['extra']['resumed_limit_runs'] = runs2
     viol, samples, runs = cli_cases(ctx)
     r['violations'] += viol
     r['samples'] = (r['samples'][:3] + samples)[:6]
     r['evaluations'] += runs
     r['extra']['cli_runs'] = runs
     r['rule'] += '; plus subprocess runs of pcfg_guesser.py in the snapshot (stdin = open pipe) whose stdout must equal, byte for byte, ' \
-                 'the guess stream computed in-process, unlimited and with -n N for N around group boundaries and at random'
+                 'the guess stream computed in-process, unlimited and with -n N for N around group boundaries and at random; plus real ' \
+                 'sessions quit after some guesses and resumed (--load) with limit N around the first session\'s guess count'
     return r
 
 
@@ -104,4 +167,25 @@ def replay(ctx, payload):
             lim = int(w['cli'][w['cli'].index('-n') + 1])
         want = full if lim is None else full[:lim]
         return [] if got == want else [{'kind': 'stdout-differs', 'got': got[:5], 'want': want[:5]}]
+    if 'unit' in w and 'limit' in w:
+        import sched_session as ss
+        from props import C12, C15
+        d = common.write_ruleset(os.path.join(common.scratch_dir('rules'), 'replay09'), w['spec'])
+        pcfg = common.load_grammar(d)
+        units = ss.units_of(pcfg)
+        sf = os.path.join(common.scratch_dir('sess'), 'replay09.sav')
+        for ext in ('.sav', '.omn'):
+            if os.path.exists(sf[:-4] + ext):
+                os.remove(sf[:-4] + ext)
+        ss.run_session(pcfg, sf, C12.new_cfg(), False, C15.quit_schedule(units, w['unit'], w['guess']), [('line', 'q', False)])
+        keep = {ext: open(sf[:-4] + ext, 'rb').read() for ext in ('.sav', '.omn') if os.path.exists(sf[:-4] + ext)}
+        big = 'm' * (sum(len(u[2]) + 1 for u in units) + 10)
+        outs = []
+        for lim in (None, w['limit']):
+            for ext, data in keep.items():
+                open(sf[:-4] + ext, 'wb').write(data)
+            if '.omn' not in keep and os.path.exists(sf[:-4] + '.omn'):
+                os.remove(sf[:-4] + '.omn')
+            outs.append(ss.run_session(pcfg, sf, C15.load_cfg(sf), True, big, [], limit=lim)['out'])
+        return [] if outs[1] == outs[0][:w['limit']] else [{'kind': 'limit-not-prefix-after-load', 'lines': len(outs[1]), 'want': min(w['limit'], len(outs[0]))}]
     return C04.replay(ctx, payload)
